@@ -532,7 +532,9 @@ func ensureHTMLSafeLoginDestination(loginDestination string) string {
 	if err != nil {
 		return profilePath
 	}
-	return parsedLoginDestination.String()
+	// The result is embedded in a raw HTML attribute value, and the query part
+	// of a URL is left verbatim by String().
+	return htmltemplate.HTMLEscapeString(parsedLoginDestination.String())
 
 }
 
